@@ -829,6 +829,24 @@ theorem every_degree_ge_three (ds : DSetData) (g : Geom) (c : Ctx) (h : mkCtx ds
     3 ≤ c.rs.getD k 0 * vs.getD k 0 :=
   degrees_ge_three h hd.valid ha k hk
 
+/-- **the upper end `4 * CURV_FAC` of the spherical window excludes nothing**: on every D-set of
+    the domain every admissible vector has K ≤ 4 (K = 2χ, and χ of an orbifold symbol is ≤ 2), so
+    its bookkeeping value is ≤ `4 * CURV_FAC`; the conjunct `scaled ≤ 4 * CURV_FAC` of `GeomCond`
+    for Spherical / All is always true. -/
+theorem spherical_window_top (ds : DSetData) (g : Geom) (c : Ctx) (h : mkCtx ds g = .ok c)
+    (hd : InDomain ds) (vs : List Nat) (ha : Adm c vs) :
+    curvQ c vs ≤ 4 ∧ scaled c vs ≤ 4 * curvFac := by
+  have hw := mkCtx_wf h
+  have hb := adm_bounds hw ha
+  have hp : Pos c vs := ⟨ha.1, fun i hi => (hb i hi).1⟩
+  have h4 := curvQ_le_four h hd.valid hd.dim hd.far hd.connected hd.nonempty hp
+  refine ⟨h4, ?_⟩
+  have he := scaled_exact c vs hb
+  have hF : (0 : ℚ) < (curvFac : ℚ) := by exact_mod_cast curvFac_pos
+  have : ((scaled c vs : Int) : ℚ) ≤ ((4 * curvFac : Int) : ℚ) := by
+    rw [he]; push_cast; nlinarith
+  exact_mod_cast this
+
 /-! ### open (not theorems): the statements, for the record -/
 
 /-- ◐ the Spec's own curvature of the same assignment (orbits by naive closure) is the same number
